@@ -110,7 +110,10 @@ def run_sup(req):
     semi = cfg.get("semi", False)
     cls = SemiSupervisedOPF if semi else SupervisedOPF
     opf = _build(cls, branch, W)
-    X, Y, I = _data(branch, n, labels)
+    ids = cfg.get("ids")
+    X, Y, I = _data(branch, n, labels, idx=ids[:n] if ids else None)
+    if ids:      # the oracles index by position
+        W = [[W[a][b] for b in ids] for a in ids]
     preds = None
     snap = None
     if cfg.get("only_protos"):
@@ -126,9 +129,9 @@ def run_sup(req):
             g = opf.subgraph
             snap = dict(cost=[_f(nd.cost) for nd in g.nodes], plabel=[_f(nd.predicted_label) for nd in g.nodes])
             if cfg.get("resub"):
-                Xq, _, Iq = _data(branch, n, None, offset=0)
+                Xq, _, Iq = _data(branch, n, None, offset=0, idx=ids[:n] if ids else None)
             else:
-                Xq, _, Iq = _data(branch, nq, None, offset=n + nu)
+                Xq, _, Iq = _data(branch, nq, None, offset=n + nu, idx=ids[n + nu:] if ids else None)
             preds = [_f(p) for p in opf.predict(Xq, Iq)]
     g = opf.subgraph
     obs = dict(cost=[_f(nd.cost) for nd in g.nodes], pred=[_f(nd.pred) for nd in g.nodes],
